@@ -225,3 +225,70 @@ example : obs (mergeFrom exA exB ⟨false, 0⟩).1 "n1" = some (2, 1) ∧
     obs (mergeFrom exB exA ⟨true, 1⟩).1 "n1" = some (2, 1) ∧ (mergeFrom exA exB ⟨false, 0⟩).2 = true := by decide
 
 end Vivid.View
+
+/-! ## The version vector never loses a live member's entry (repaired `recomputeCounts`) -/
+namespace Vivid.View
+open Vivid.VV
+
+theorem get_filter_contains (v : VV) (act : List Node) (k : Node) (hk : act.contains k = true) :
+    VV.get (v.filter (fun e => act.contains e.1)) k = VV.get v k := by
+  induction v with
+  | nil => rfl
+  | cons e t ih =>
+    obtain ⟨k', c⟩ := e
+    by_cases hc : act.contains k' = true
+    · simp only [List.filter_cons, hc, if_true, get_cons, ih]
+    · have hne : k' ≠ k := fun h => hc (h ▸ hk)
+      simp only [List.filter_cons, hc, get_cons, hne, if_false, ih, Bool.false_eq_true]
+
+/-- With the cap never below the member count, pruning keeps every active key's counter. -/
+theorem prune_keeps (v : VV) (active : List Node) (lim : Nat) (hl : active.length ≤ lim) (h0 : 0 < lim)
+    (k : Node) (hk : k ∈ active) : VV.get (pruneWithMax v active (Int.ofNat lim)) k = VV.get v k := by
+  unfold pruneWithMax
+  by_cases hz : v.length = 0 ∨ active.length = 0
+  · simp only [hz, if_true]
+    rcases hz with hz | hz
+    · rw [get_of_length_zero v hz]; rfl
+    · have : active = [] := List.length_eq_zero_iff.1 hz
+      subst this; cases hk
+  · simp only [hz, if_false]
+    have hpos : ¬ (Int.ofNat lim ≤ 0) := by
+      intro h; have : (lim : Int) ≤ 0 := h; omega
+    have htn : (Int.ofNat lim).toNat = lim := by simp
+    simp only [hpos, if_false, htn]
+    have hng : ¬ active.length > lim := by omega
+    simp only [hng, if_false]
+    exact get_filter_contains v active k (by simpa using hk)
+
+/-- **C17 (the version vector does not regress for members).** After a merge, every member of
+the result has a counter at least as large as it had in the receiving view (and at least as
+large as in the merged-in view). -/
+theorem C17_vv_no_regress (a b : View) (o : MergeOpts) (hb : VV.WF b.vv) (k : String)
+    (hk : k ∈ mkeys (mergeFrom a b o).1.members) :
+    VV.get a.vv k ≤ VV.get (mergeFrom a b o).1.vv k ∧
+    (b.members.length ≠ 0 → VV.get b.vv k ≤ VV.get (mergeFrom a b o).1.vv k) := by
+  unfold mergeFrom at hk ⊢
+  by_cases hz : b.members.length = 0
+  · simp only [hz, if_true]; exact ⟨Nat.le_refl _, fun h => absurd rfl h⟩
+  · simp only [hz, if_false] at hk ⊢
+    rw [merge_get _ _ hb]
+    -- the members of the result are those of the merged member list
+    have hm : (recompute { a with members := (mergeMembers a.members b.members false).1 }).members
+        = (mergeMembers a.members b.members false).1 := rfl
+    rw [hm] at hk
+    have hlen : 0 < (mergeMembers a.members b.members false).1.length := by
+      cases hh : (mergeMembers a.members b.members false).1 with
+      | nil => rw [hh] at hk; cases hk
+      | cons _ _ => simp
+    have hv1 : VV.get (recompute { a with members := (mergeMembers a.members b.members false).1 }).vv k
+        = VV.get a.vv k := by
+      unfold recompute
+      simp only [hlen, if_true]
+      apply prune_keeps
+      · simp only [mkeys, List.length_map]; exact Nat.le_max_right _ _
+      · exact Nat.lt_of_lt_of_le hlen (Nat.le_max_right _ _)
+      · exact hk
+    rw [hv1]
+    exact ⟨Nat.le_max_left _ _, fun _ => Nat.le_max_right _ _⟩
+
+end Vivid.View
